@@ -15,4 +15,5 @@ func checkC02(p *Prog, r *Report) {
 		return false
 	})
 	wireAnte(p, r, "C02")
+	checkInitGenesisCallers(p, r, "C02", "x/aol")
 }
